@@ -6,14 +6,19 @@ use std::io::{BufWriter, Write};
 pub struct TraceWriter {
     out: BufWriter<File>,
     pub lines: u64,
+    /// when set, events are dropped (silent re-execution of a history prefix)
+    pub mute: bool,
 }
 
 impl TraceWriter {
     pub fn create(path: &str) -> Self {
         let f = File::create(path).unwrap_or_else(|e| panic!("cannot create {path}: {e}"));
-        Self { out: BufWriter::new(f), lines: 0 }
+        Self { out: BufWriter::new(f), lines: 0, mute: false }
     }
     pub fn emit(&mut self, v: &Value) {
+        if self.mute {
+            return;
+        }
         serde_json::to_writer(&mut self.out, v).unwrap();
         self.out.write_all(b"\n").unwrap();
         self.lines += 1;
